@@ -26,7 +26,7 @@ func TestC12Conflicts(t *testing.T) {
 	rec := vt.For("C12")
 	rec.Rule("conflict re-runs (free-running): 1-4 nodes each send one keep-alive (UpdateNodePeers) listing 1-6 registered peers, some of them stale (last seen 10 min ago), plus unknown and duplicate ids, while 2-6 goroutines keep re-registering those same nodes (SetNode) so that the badger transaction conflicts and is re-run; the memory driver gets the same calls; oracle: each keep-alive returns exactly its stale registered peers, each once, and afterwards NodePeers is exactly the fresh registered peers - on both drivers; non-trivial = a keep-alive with >=1 stale peer; distinct by the peer classes per node")
 	defer vt.Watch("TestC12Conflicts", 120*time.Second)()
-	rapid.Check(t, func(rt *rapid.T) {
+	check(t, func(rt *rapid.T) {
 		nNodes := rapid.IntRange(1, 4).Draw(rt, "nodes")
 		type plan struct {
 			id           store.NodeID
